@@ -202,33 +202,53 @@ inductive WVal
   | eff (i k : Nat) -- the data of effect k of init i (for all selected atoms)
 deriving DecidableEq, Repr, Hashable
 
+/-- where a lookup ends when no delayed-load getter runs: at a value, at a pending delayed-load
+    property (chain position), or nowhere (`AttributeError`) -/
+inductive Stop
+  | val (v : Val)
+  | pendingAt (pos : Nat)
+  | fail
+deriving DecidableEq, Repr
+
+/-- the walk of `getattr(x, p)` along the delegation chain, up to the first delayed-load property:
+    for every object – data descriptor on its class, instance dictionary (user value, loader
+    data), plain class attribute, else `__getattr__` delegation to the next object -/
+def findStop (g : GroupCfg) (s : GS) (t p : Nat) (orc : Orc) : List Node → Nat → Stop
+  | [], _ => .fail
+  | node :: rest, pos =>
+    match s.clsGet node.cls p with
+    | some .pending => .pendingAt pos
+    | some (.desc i k) => .val (.computed i k pos)
+    | c =>
+      if orc pos then .val (.user pos)
+      else
+        match s.instData g t node p with
+        | some (i, k) => .val (.data i k [])
+        | none =>
+          match c with
+          | some (.plain i v t') => .val (.dflt i v t' [])
+          | _ => if node.cls.delegates then findStop g s t p orc rest (pos + 1) else .fail
+
 mutual
 /-- `getattr(x, p)` where `chain` is x followed by the objects it delegates to; `pos` is the
-    chain position of the head -/
+    chain position of the head.  When the walk meets a pending delayed-load property its getter
+    runs; an `AttributeError` from the getter falls back to `__getattr__` of that object. -/
 def getAttr (g : GroupCfg) : Nat → GS → Nat → List Node → Nat → Nat → Orc → GS × Res Val
   | 0, s, _, _, _, _, _ => (s, .outOfFuel)
   | fuel + 1, s, t, chain, pos, p, orc =>
-    match chain with
-    | [] => (s, .attrError)
-    | node :: rest =>
-      match s.clsGet node.cls p with
-      | some .pending =>
-        let (s1, r) := runAcc g fuel g.getter s t chain pos p orc none
-        match r with
-        | .attrError =>
-          if node.cls.delegates then getAttr g fuel s1 t rest (pos + 1) p orc else (s1, .attrError)
-        | r => (s1, r)
-      | some (.desc i k) => (s, .ok (.computed i k pos))
-      | c =>
-        if orc pos then (s, .ok (.user pos))
-        else
-          match s.instData g t node p with
-          | some (i, k) => (s, .ok (.data i k []))
-          | none =>
-            match c with
-            | some (.plain i v t') => (s, .ok (.dflt i v t' []))
-            | _ =>
-              if node.cls.delegates then getAttr g fuel s t rest (pos + 1) p orc else (s, .attrError)
+    match findStop g s t p orc chain pos with
+    | .val v => (s, .ok v)
+    | .fail => (s, .attrError)
+    | .pendingAt j =>
+      let sub := chain.drop (j - pos)
+      let (s1, r) := runAcc g fuel g.getter s t sub j p orc none
+      match r with
+      | .attrError =>
+        match sub with
+        | node :: rest =>
+          if node.cls.delegates then getAttr g fuel s1 t rest (j + 1) p orc else (s1, .attrError)
+        | [] => (s1, .attrError)
+      | r => (s1, r)
 
 /-- `setattr(x, p, value)` on the head of the chain -/
 def setAttr (g : GroupCfg) : Nat → GS → Nat → List Node → Nat → Nat → Orc → WVal → GS × Res Val
@@ -438,10 +458,12 @@ inductive Served
   | outOfFuel
 deriving DecidableEq, Repr, Hashable
 
+def markOf (scope : Option Nat) (atom p : Nat) (src : Nat × Nat) : LEntry → Option Nat
+  | .mark sc a p' s n => if sc = scope ∧ a = atom ∧ p' = p ∧ s = src then some n else none
+  | _ => none
+
 def marksOf (log : List LEntry) (scope : Option Nat) (atom p : Nat) (src : Nat × Nat) : List Nat :=
-  List.mergeSort (le := fun a b => a ≤ b) <| log.filterMap fun
-    | .mark sc a p' s n => if sc = scope ∧ a = atom ∧ p' = p ∧ s = src then some n else none
-    | _ => none
+  List.mergeSort (le := fun a b => a ≤ b) (log.filterMap (markOf scope atom p src))
 
 /-- is the value written by effect (i, k) a module-level object stored by reference? -/
 def GroupCfg.sharedEff (g : GroupCfg) (i k : Nat) : Bool :=
